@@ -141,7 +141,7 @@ func runC09(c *Ctx) {
 	_ = sitesSeen
 	c.Max("deviation_bound_completed", bound)
 	c.Meta(map[string]interface{}{
-		"rule": "programs: thread A = every exported entry point in turn (39 calls selecting indexed / unindexed / refined searches, terminals, batch and flush paths), thread B = a write-lock taker (Commit, InsertOrUpdate) or a read-lock taker, optional thread C, plus the background flusher in async configurations, from a warm handle and from a freshly opened one (nothing loaded); for each program every schedule with at most the stated number of deviations (pre-emptions at lock acquisitions, context checks and sleeps; early clock ticks) is executed on the real code under the cooperative scheduler with the writer-preferring RWMutex model; oracle: no reachable state with unfinished threads and none enabled, no tick-horizon overrun, no panic. Non-trivial = programs with more than one schedule.",
+		"rule":    "programs: thread A = every exported entry point in turn (39 calls selecting indexed / unindexed / refined searches, terminals, batch and flush paths), thread B = a write-lock taker (Commit, InsertOrUpdate) or a read-lock taker, optional thread C, plus the background flusher in async configurations, from a warm handle and from a freshly opened one (nothing loaded); for each program every schedule with at most the stated number of deviations (pre-emptions at lock acquisitions, context checks and sleeps; early clock ticks) is executed on the real code under the cooperative scheduler with the writer-preferring RWMutex model; oracle: no reachable state with unfinished threads and none enabled, no tick-horizon overrun, no panic. Non-trivial = programs with more than one schedule.",
 		"configs": cfgs, "entry_points": len(entryPoints()), "partners": len(partners),
 	})
 }
